@@ -316,7 +316,7 @@ def run(ctx):
         _check_shared_cache(ctx, fi, mdl.cls('path.' + cname))
 
     # ------------------------------------------------------------------ R16.6 who-may-write
-    hits = _foreign_writes(mdl.modules.values())
+    hits = _foreign_writes(mdl.modules.values(), mdl)
     ctx.record('R16.6', 'package', 'foreign writers of private state', not hits,
                detail='; '.join('%s:%d %s' % h for h in hits), where='svgpathtools/*', nontrivial=True,
                sample={'scanned_modules': sorted(mdl.modules), 'hits': len(hits)})
@@ -514,7 +514,7 @@ def _check_length_info_cache(ctx, fi, keyparams, kinds, cname):
         Obligation(ctx, 'R16.3').run(fi, 'length(%s, %s) on a segment with a stale cache entry' % (t0, t1), th, judge,
                                      allowed_raises=('AssertionError',),
                                      opts={'call_hooks': {'path.segment_length': lambda it, a, k: Rat.sym('FRESH')},
-                                           'globals': {('path', '_quad_available'): False}, 'presign': [(LC, '+')]})
+                                           'globals': {('*', '_quad_available'): False}, 'presign': [(LC, '+')]})
 
 
 def _block_of(stmt):
@@ -648,8 +648,17 @@ def _check_shared_cache(ctx, fi, cls):
                        ctor_args, norm(rekey.value) if rekey is not None else None), where=where(fi, sh))
 
 
-def _foreign_writes(modules):
+def _foreign_writes(modules, mdl=None):
     hits = []
+    # the owner's family: the class itself and its in-package base classes (state handled by a common base is still the owner's)
+    fam = {}
+    if mdl is not None:
+        for cn in {'Path'} | {c for v in SEG_PRIVATE.values() for c in v}:
+            try:
+                fam[cn] = {cn} | {b.split('.')[-1] for b in mdl.cls('path.' + cn).bases}
+            except Exception:
+                fam[cn] = {cn}
+    in_family = lambda owner, names: owner is not None and any(owner in fam.get(n, {n}) for n in names)
     for m in modules:
         for cls_node, node in _walk_with_class(m.tree):
             attr = None
@@ -666,11 +675,11 @@ def _foreign_writes(modules):
                 continue
             name = attr.attr
             owner = cls_node.name if cls_node is not None else None
-            if name in PATH_PRIVATE and owner != 'Path':
+            if name in PATH_PRIVATE and not in_family(owner, ('Path',)):
                 hits.append((m.relpath, node.lineno, '%s written outside Path: %s' % (name, norm(node)[:60])))
-            elif name in SEG_PRIVATE and owner not in SEG_PRIVATE[name]:
+            elif name in SEG_PRIVATE and not in_family(owner, SEG_PRIVATE[name]):
                 hits.append((m.relpath, node.lineno, '%s written outside %s: %s' % (name, '/'.join(SEG_PRIVATE[name]), norm(node)[:60])))
-            elif name in PATH_PRIVATE and owner == 'Path' and not (isinstance(attr.value, ast.Name) and attr.value.id == 'self'):
+            elif name in PATH_PRIVATE and in_family(owner, ('Path',)) and not (isinstance(attr.value, ast.Name) and attr.value.id == 'self'):
                 # inside Path, the private state of ANOTHER path object is written: a transplanted cache is not keyed to
                 # that object's segments (order, orientation)
                 hits.append((m.relpath, node.lineno, '%s of another Path object written: %s' % (name, norm(node)[:60])))
